@@ -155,6 +155,9 @@ func (sc *shapeChecker) value(s *shState, v ssa.Value) string {
 		if f := fieldOf(fa); f != nil && f.Embedded() {
 			return sc.value(s, fa.X) // &item.listLinks is the item (links kept in an embedded helper struct)
 		}
+		if lf := sc.linkField(fieldOf(fa)); lf != "" {
+			return "slot|" + sc.value(s, fa.X) + "|" + lf // the address of a link, handed around (`*list.nextSlot(prev) = item`)
+		}
 	}
 	switch x := v.(type) {
 	case *ssa.Const:
@@ -185,6 +188,26 @@ func (sc *shapeChecker) value(s *shState, v ssa.Value) string {
 		return "v:" + ins.Parent().Name() + "." + v.Name()
 	}
 	return "v:" + v.Name()
+}
+
+// storeLink: base.f = nv, with the bookkeeping of a link store.
+func (sc *shapeChecker) storeLink(s *shState, base, f, nv string) {
+	k := shKey{base, f}
+	if nv != "nil" && (f == "next" || f == "prev") {
+		// re-linking: the old neighbour (if any) still points here and must be dealt with
+		sc.load(s, k.base, f)
+	}
+	if s.countTested {
+		sc.usesCount = true // a link is written on a path that was chosen by a test of the element count
+	}
+	if old, had := s.field[k]; had && old != nv && old != "nil" {
+		if s.unlinked == nil {
+			s.unlinked = map[string]bool{}
+		}
+		s.unlinked[old] = true // this link pointed to `old` and no longer does
+	}
+	s.field[k] = nv
+	s.stored[k] = true
 }
 
 func (sc *shapeChecker) setNil(s *shState, id string, isNil bool) bool {
@@ -350,27 +373,22 @@ func (sc *shapeChecker) step(s *shState, in ssa.Instruction) {
 				}
 			}
 			if f := sc.linkField(fieldOf(a)); f != "" {
-				k := shKey{sc.value(s, a.X), f}
-				nv := sc.value(s, x.Val)
-				if nv != "nil" && (f == "next" || f == "prev") {
-					// re-linking: the old neighbour (if any) still points here and must be dealt with
-					sc.load(s, k.base, f)
-				}
-				if s.countTested {
-					sc.usesCount = true // a link is written on a path that was chosen by a test of the element count
-				}
-				if old, had := s.field[k]; had && old != nv && old != "nil" {
-					if s.unlinked == nil {
-						s.unlinked = map[string]bool{}
-					}
-					s.unlinked[old] = true // this link pointed to `old` and no longer does
-				}
-				s.field[k] = nv
-				s.stored[k] = true
+				sc.storeLink(s, sc.value(s, a.X), f, sc.value(s, x.Val))
 			}
 		case *ssa.Alloc:
 			if _, isPtr := a.Type().Underlying().(*types.Pointer).Elem().Underlying().(*types.Pointer); isPtr {
 				s.cells[a] = sc.value(s, x.Val)
+			}
+		}
+		// a store through the address of a link that a helper handed back
+		if _, isFa := x.Addr.(*ssa.FieldAddr); !isFa {
+			if _, isAl := x.Addr.(*ssa.Alloc); !isAl {
+				if id := sc.value(s, x.Addr); strings.HasPrefix(id, "slot|") {
+					parts := strings.SplitN(id, "|", 3)
+					if len(parts) == 3 {
+						sc.storeLink(s, parts[1], parts[2], sc.value(s, x.Val))
+					}
+				}
 			}
 		}
 		// `*links = listLinks{}` through a pointer (the receiver of a detach method): both links cleared
@@ -457,6 +475,18 @@ func (sc *shapeChecker) writesLinks(fn *ssa.Function) bool {
 		if st, ok := in.(*ssa.Store); ok {
 			if fa, ok := st.Addr.(*ssa.FieldAddr); ok && sc.linkField(fieldOf(fa)) != "" {
 				r = true
+			}
+			// a store through the address of a link obtained from a helper (`*list.nextSlot(prev) = item`)
+			if _, isAl := st.Addr.(*ssa.Alloc); !isAl {
+				if _, isFa := st.Addr.(*ssa.FieldAddr); !isFa {
+					if pt, ok := st.Addr.Type().Underlying().(*types.Pointer); ok {
+						if sc.c.isPkgType(pt.Elem(), "listItem") {
+							if _, isPP := pt.Elem().Underlying().(*types.Pointer); isPP {
+								r = true
+							}
+						}
+					}
+				}
 			}
 			// a struct that holds the links written as a whole (`*links = listLinks{}`)
 			if t, ok := st.Val.Type().Underlying().(*types.Struct); ok {
@@ -916,6 +946,17 @@ func ruleListShape(c *Ctx) {
 	// directly relies on what its call sites pass (a node that is new, two nodes that are neighbours): it is executed
 	// inside each of its callers instead, and those callers are judged (repeated for helpers of helpers).
 	inline := map[*ssa.Function]bool{}
+	// functions that hand back the address of a link (`func (l *storeList) nextSlot(prev *listItem) **listItem`) are
+	// always executed inside their callers: which link it is depends on the argument
+	for _, fn := range c.SrcFuncs() {
+		if fn.Signature.Results().Len() == 1 {
+			if pt, ok := fn.Signature.Results().At(0).Type().Underlying().(*types.Pointer); ok {
+				if _, isPP := pt.Elem().Underlying().(*types.Pointer); isPP && c.isPkgType(pt.Elem(), "listItem") {
+					inline[fn] = true
+				}
+			}
+		}
+	}
 	results := map[*ssa.Function]*shapeChecker{}
 	for round := 0; round < 4; round++ {
 		todo := map[*ssa.Function]bool{}
